@@ -144,3 +144,164 @@ Proof.
     rewrite filter_app, (filter_gen_old (gen s) (kids s) Hg), filter_gen_spawn; cbn;
     unfold spawn_kids, ids; rewrite map_map; auto.
 Qed.
+
+(* ------------------------------------------------------------------ no child of an older generation is running
+   (the code with /repo f0fcb2b: fix_stale) *)
+
+Definition post_join (p : rpc) : bool :=
+  match p with RSetCfg | RBootLock | RBootLaunch => true | _ => false end.
+
+Lemma post_join_inside p : post_join p = true -> inside p = true.
+Proof. destruct p; cbn; auto; discriminate. Qed.
+
+Lemma is_drain_inside p : is_drain p = true -> inside p = true.
+Proof. destruct p; cbn; auto; discriminate. Qed.
+
+(* D: while a stopAllRunnables drains, the cancelled generation is the current one
+   Z: between a reloader's stopAllRunnables and its boot every child goroutine has finished
+   Y: every goroutine of an older generation has finished *)
+Lemma outside_count0 f s :
+  all_outside s -> (forall p, f p = true -> inside p = true) -> count_r f (reloaders s) = 0.
+Proof.
+  intros Ho Hf. destruct (count_r f (reloaders s)) eqn:E; [reflexivity|exfalso].
+  destruct (count_pos_nth f (reloaders s) ltac:(lia)) as (k & r & Hk & Hr).
+  pose proof (outside_nth _ _ _ Ho Hk) as Hout. apply Hf in Hr. unfold inside in Hr.
+  rewrite Hout in Hr. discriminate Hr.
+Qed.
+
+Definition Y_inv (s : state) : Prop :=
+  ((0 < count_r is_drain (reloaders s) \/ runt s = TStopDrain) -> gen_cancelled s = gen s)
+  /\ (0 < count_r post_join (reloaders s) -> forallb kdone (kids s) = true)
+  /\ (forall k, In k (kids s) -> k_gen k < gen s -> kdone k = true).
+
+Lemma kdone_nth_contra l i k :
+  forallb kdone l = true -> nth_error l i = Some k -> kdone k = false -> False.
+Proof.
+  intros H Hn Hk. rewrite forallb_forall in H. specialize (H k (nth_error_In _ _ Hn)). congruence.
+Qed.
+
+Lemma Y_inv_step P s l s' :
+  fix_c09 P = true -> fix_stale P = true ->
+  I1 s -> L_mu P s -> K_gen s -> Y_inv s -> step P s l = Some s' -> Y_inv s'.
+Proof.
+  intros Hf Hfs H1 Hmu Hgen (D & Z & Y) Hst.
+  pose proof (L_mu_inside_le P s Hmu) as Hle.
+  unfold Y_inv.
+  open_step Hst; cbn; goal_cases; try congruence;
+    count_facts is_drain; count_facts post_join;
+    repeat match goal with Hq : r_pc ?x = _ |- _ => rewrite Hq in * end; cbn in *;
+    rewrite ?Nat.add_0_r in *; unfold tear_pc; rewrite ?Hf.
+  all: try (split_all;
+            [ intros Hd; apply D; destruct Hd as [Hd|Hd];
+              [left; lia | first [right; exact Hd | right; congruence | discriminate Hd]]
+            | intros Hz; apply Z; lia
+            | exact Y ]; fail).
+  all: try (match goal with E : fix_stale _ = false |- _ => rewrite Hfs in E; discriminate E end).
+  (* kid goroutine steps *)
+  all: try (match goal with
+            | Ek : nth_error (kids ?s0) ?i = Some ?k, Epc : k_pc ?k = _ |- _ =>
+              split_all;
+              [ intros Hd; apply D; destruct Hd as [Hd|Hd]; [left; lia|right; exact Hd]
+              | intros Hz; exfalso; eapply (kdone_nth_contra (kids s0) i k);
+                [apply Z; exact Hz|exact Ek|unfold kdone; rewrite Epc; reflexivity]
+              | intros k' Hin Hlt; apply in_upd in Hin as [Hin|(x' & Hx' & ->)];
+                [apply Y; assumption|];
+                assert (x' = k) by congruence; subst x'; cbn in Hlt;
+                pose proof (Y k (nth_error_In _ _ Ek) Hlt) as Hdone;
+                unfold kdone in Hdone; rewrite Epc in Hdone; discriminate Hdone ]; fail
+            end).
+  - (* initial boot: nothing was running *)
+    assert (Hpre : pre_launch (runt s) = true) by (rewrite En; reflexivity).
+    destruct (H1 Hpre) as (Hk & _ & _ & _ & Ho & _).
+    pose proof (outside_count0 is_drain s Ho is_drain_inside) as C1.
+    pose proof (outside_count0 post_join s Ho post_join_inside) as C2.
+    split_all; [intros [Hd|Hd]; [lia|discriminate Hd]|intros Hz; lia|].
+    intros k Hin Hl2. rewrite Hk in Hin. cbn in Hin.
+    unfold spawn_kids in Hin. apply in_map_iff in Hin as (e0 & <- & _). cbn in *. lia.
+  - assert (Hpre : pre_launch (runt s) = true) by (rewrite En; reflexivity).
+    destruct (H1 Hpre) as (Hk & _ & _ & _ & Ho & _).
+    pose proof (outside_count0 is_drain s Ho is_drain_inside) as C1.
+    pose proof (outside_count0 post_join s Ho post_join_inside) as C2.
+    split_all; [intros [Hd|Hd]; [lia|discriminate Hd]|intros Hz; lia|].
+    intros k Hin Hl2. rewrite Hk in Hin. cbn in Hin.
+    unfold spawn_kids in Hin. apply in_map_iff in Hin as (e0 & <- & _). cbn in *. lia.
+  - (* a reloader's boot: every earlier goroutine has finished *)
+    assert (Hi : inside (r_pc x) = true) by (rewrite Hp; reflexivity).
+    assert (Cd : count_r is_drain (reloaders s) = 0)
+      by (eapply (count_one_other inside is_drain); eauto using is_drain_inside; rewrite Hp; reflexivity).
+    pose proof (count_le post_join inside (reloaders s) post_join_inside) as Cle.
+    assert (Hall : forallb kdone (kids s) = true) by (apply Z; lia).
+    split_all.
+    + intros [Hd|Hd]; [lia|exfalso].
+      destruct Hmu as [Hm _]. rewrite Hf, Hd in Hm. cbn in Hm.
+      pose proof (count_nth_le inside _ _ _ Hx Hi). destruct (negb (mu_free (reload_mu s))); cbn in Hm; lia.
+    + intros Hz. lia.
+    + intros k0 Hin Hl2. apply in_app_or in Hin as [Hin|Hin].
+      * rewrite forallb_forall in Hall. now apply Hall.
+      * unfold spawn_kids in Hin. apply in_map_iff in Hin as (e0 & <- & _). cbn in *. lia.
+  - assert (Hi : inside (r_pc x) = true) by (rewrite Hp; reflexivity).
+    assert (Cd : count_r is_drain (reloaders s) = 0)
+      by (eapply (count_one_other inside is_drain); eauto using is_drain_inside; rewrite Hp; reflexivity).
+    pose proof (count_le post_join inside (reloaders s) post_join_inside) as Cle.
+    assert (Hall : forallb kdone (kids s) = true) by (apply Z; lia).
+    split_all.
+    + intros [Hd|Hd]; [lia|exfalso].
+      destruct Hmu as [Hm _]. rewrite Hf, Hd in Hm. cbn in Hm.
+      pose proof (count_nth_le inside _ _ _ Hx Hi). destruct (negb (mu_free (reload_mu s))); cbn in Hm; lia.
+    + intros Hz. lia.
+    + intros k0 Hin Hl2. apply in_app_or in Hin as [Hin|Hin].
+      * rewrite forallb_forall in Hall. now apply Hall.
+      * unfold spawn_kids in Hin. apply in_map_iff in Hin as (e0 & <- & _). cbn in *. lia.
+  - split_all; [reflexivity|exact Z|exact Y].
+  - split_all; [reflexivity|intros Hz; apply Z; lia|exact Y].
+  - (* the drain is over: every goroutine launched so far has finished *)
+    assert (Hg : gen_cancelled s = gen s) by (apply D; left; lia).
+    split_all; [intros _; exact Hg| |exact Y].
+    intros _. apply forallb_forall. intros kd Hin.
+    unfold drained in H0. rewrite forallb_forall in H0. specialize (H0 kd Hin).
+    rewrite Hg in H0. pose proof (Hgen kd Hin) as Hle2.
+    apply orb_true_iff in H0 as [H0|H0]; [|exact H0].
+    apply negb_true_iff, Nat.leb_gt in H0. lia.
+  - destruct (membership_changed P (entries_of s) c); cbn in Hc, Hc0; rewrite Nat.add_0_r in Hc, Hc0; subst n n0;
+      (split_all; [intros [Hd|Hd]; apply D; [left; exact Hd|right; exact Hd]|exact Z|exact Y]).
+Qed.
+
+Lemma Y_reach P s :
+  fix_c09 P = true -> fix_stale P = true -> reach P s -> K_gen s /\ Y_inv s.
+Proof.
+  intros Hf Hfs Hr.
+  assert (H : (InvC10 s /\ L_mu P s) /\ K_gen s /\ Y_inv s); [|apply H].
+  revert s Hr. apply reach_inv.
+  - split; [split; [apply InvC10_init|unfold L_mu; cbn; split; [now rewrite andb_false_r|discriminate]]|].
+    split; [intros k []|]. unfold Y_inv. cbn. split_all.
+    + intros [H|H]; [inversion H|discriminate H].
+    + intros H. inversion H.
+    + intros k [].
+  - intros s l s' ((Hc & Hmu) & Kg & Yi) Hst.
+    split; [split; [eapply InvC10_step; eassumption|eapply L_mu_step; eassumption]|].
+    split; [eapply K_gen_step; eassumption|].
+    destruct Hc as (_ & H1 & _). eapply (Y_inv_step P s l s'); eassumption.
+Qed.
+
+(* C09_exact, second half (code with /repo f0fcb2b and 82de565): at every moment, every child
+   goroutine of an older boot generation has finished - no child outside the current generation is
+   running *)
+Theorem older_generations_finished P s :
+  fix_c09 P = true -> fix_stale P = true -> reach P s ->
+  forall k, In k (kids s) -> k_gen k < gen s -> k_pc k = KDone.
+Proof.
+  intros Hf Hfs Hr k Hin Hlt.
+  destruct (Y_reach P s Hf Hfs Hr) as (_ & _ & _ & Y).
+  specialize (Y k Hin Hlt). unfold kdone in Y. destruct (k_pc k); try discriminate Y. reflexivity.
+Qed.
+
+(* between a reload's stopAllRunnables and its boot no child goroutine at all is alive *)
+Theorem all_finished_before_reboot P s k r :
+  fix_c09 P = true -> fix_stale P = true -> reach P s ->
+  nth_error (reloaders s) k = Some r -> post_join (r_pc r) = true ->
+  forallb kdone (kids s) = true.
+Proof.
+  intros Hf Hfs Hr Hn Hp.
+  destruct (Y_reach P s Hf Hfs Hr) as (_ & _ & Z & _).
+  apply Z. pose proof (count_nth_le post_join _ _ _ Hn Hp). lia.
+Qed.
